@@ -93,6 +93,8 @@ type Monitors struct {
 	reqCount    map[string]int
 	DupRequests int // schedule keys requested at least twice (any incarnation, incl. injected duplicates)
 	cronJCs     map[string]*cronJC
+	// JobConfigs (uid) for which a start write was applied but reported as a timeout to the queue controller
+	timedOutStart map[string]bool
 	// non-triviality measures
 	Retries          int
 	MultiAttemptJobs int
@@ -233,6 +235,15 @@ func (m *Monitors) MissingSchedules() (due int, missing []string) {
 		}
 	}
 	return due, missing
+}
+
+// timedOutSuffix classifies counter violations that follow a start write which was applied but
+// reported as a timeout (known finding: the queue controller rolls the counter back although the Job runs).
+func (m *Monitors) timedOutSuffix(jcuid string) string {
+	if m.timedOutStart[jcuid] {
+		return ":after-timed-out-start-write"
+	}
+	return ""
 }
 
 // TraceHash identifies the abstract trace (actors, verbs, kinds and state classes with names and times erased).
@@ -983,6 +994,13 @@ func (m *Monitors) checkJobTransition(ev *Event, jr *jobRec, old, j *execution.J
 	// --- start write: C07, C05, C06c
 	if started {
 		jr.StartedAt = now
+		if ev.Fault == FTimeoutAfter && ctrl && jr.JCUID != "" {
+			if m.timedOutStart == nil {
+				m.timedOutStart = map[string]bool{}
+			}
+			m.timedOutStart[jr.JCUID] = true
+			m.Evals["start_write_timed_out_after_apply"]++
+		}
 		m.Evals["C07"]++
 		if sp := j.Spec.StartPolicy; sp != nil && sp.StartAfter != nil && now.Before(sp.StartAfter.Time) {
 			m.fail("C07", "started-before-startAfter", "Job %s started at %v, before its startAfter %v", j.Name, now.Sub(Epoch), sp.StartAfter.Sub(Epoch))
@@ -1000,7 +1018,7 @@ func (m *Monitors) checkJobTransition(ev *Event, jr *jobRec, old, j *execution.J
 				m.Evals["C05"]++
 				if int64(len(others)) >= jc.Spec.Concurrency.GetMaxConcurrency() {
 					sort.Strings(others)
-					m.fail("C05", "concurrency-exceeded", "Job %s (%s) started while %v of the same JobConfig are started and not finished (maxConcurrency %d)", j.Name, pol, others, jc.Spec.Concurrency.GetMaxConcurrency())
+					m.fail("C05", "concurrency-exceeded"+m.timedOutSuffix(jr.JCUID), "Job %s (%s) started while %v of the same JobConfig are started and not finished (maxConcurrency %d)", j.Name, pol, others, jc.Spec.Concurrency.GetMaxConcurrency())
 				}
 				if len(others) > 0 {
 					m.Evals["C05_contended"]++
@@ -1312,7 +1330,7 @@ func (m *Monitors) onQuiescent() {
 		m.Evals["C05_counter"]++
 		if !delayed["queue-perconfig"] {
 			if c := w.Inc.Store.CountActiveJobsForConfig(jc); int(c) != len(act) {
-				m.fail("C05", "counter-vs-truth", "active-job counter for JobConfig %s is %d but %d Jobs are started and not finished %v", jc.Name, c, len(act), act)
+				m.fail("C05", "counter-vs-truth"+m.timedOutSuffix(string(jc.UID)), "active-job counter for JobConfig %s is %d but %d Jobs are started and not finished %v", jc.Name, c, len(act), act)
 			}
 		}
 		if delayed["jobconfig"] {
